@@ -61,5 +61,14 @@ def rules(ctx):
     must_depend(ctx, "R4.unserved-definition", "T1", S("compute_unserved_passengers_at_node"), "ret",
                 [call(N("passengers_of")), call(N("seated_passengers_of")), call(TRAINF + "::capacity"), call(TRAINF + "::seats")],
                 "unserved passengers at a node = demand minus formation capacity / seats")
+    # R5: the caches read by the indicators are maintained truthfully (rule groups shared with C09 / C07)
+    from .C09 import tour_cache_rules, cycle_update_rules, cost_delta_form
+    from .C07 import unserved_is_a_sum
+    tour_cache_rules(ctx)
+    cycle_update_rules(ctx)
+    unserved_is_a_sum(ctx, "R1")
+    s_sites = common.sites_of(ctx, SCHEDULE)
+    common.lost_update_rule(ctx, "R5", SCHEDULE, s_sites)
+    common.lost_update_rule(ctx, "R5", TRANSITION, common.sites_of(ctx, TRANSITION))
     must_depend(ctx, "R4.transition-violation-getter", "T1", TR("maintenance_violation"), "ret",
                 [field(TRANSITION, "total_maintenance_violation")], "a transition reports its cached total violation")
